@@ -243,3 +243,28 @@ def prologue_ops(read):
     if read.get("global_dirs"):
         ops.append({"op": "setConfDirs", "dirs": read["global_dirs"]})
     return ops
+
+
+def layered_read_ops(read, cb=None, init="null", faults=None, dump_ext=False):
+    """ops for one read through read['ep'] (readFile | readDirs | readDirsHistory | readConfig),
+    tagged 'read' and 'dump'; the object/history ends up freed."""
+    ops = []
+    if read["ep"] == "readFile":
+        op = {"op": "readFile", "o": 0, "path": read["path"], "delim": read["delim"], "comment": read["comment"], "init": init, "tag": "read"}
+        if cb is not None:
+            op["cb"] = cb
+        if faults:
+            op["faults"] = faults
+        ops.append(op)
+    elif read["ep"] == "readConfig":
+        ops.append({"op": "newOpts", "o": 0, "options": option_string(read), "tag": "new"})
+        ops.append(dict(read_op(read, o=0, cb=cb, in_slot=0, faults=faults), tag="read"))
+    else:
+        ops.append(dict(read_op(read, o=0, cb=cb, init=init, faults=faults), tag="read"))
+    if read["ep"] == "readDirsHistory":
+        ops.append({"op": "dumpHistory", "h": 0, "ext": dump_ext, "tag": "dump"})
+        ops.append({"op": "freeHistory", "h": 0})
+    else:
+        ops.append({"op": "dump", "k": 0, "ext": dump_ext, "tag": "dump"})
+        ops.append({"op": "free", "k": 0})
+    return ops
